@@ -26,3 +26,4 @@ run heap-prefers-right-child-ring-one-allocation.diff C05 C06 C08 C09 C10
 run stack-prealloc-reset-drops-large-map-queue-regrow-reader-buffer.diff C07 C10 C14 C19
 run heapq-cached-less-predicate.diff C05 C06 C08
 run cache-clear-callbacks-after-unlock.diff C08 C09
+run cache-remove-callback-after-unlock.diff C08 C09
